@@ -18,8 +18,8 @@ Also here:
   mod.rs:177-190), as functions of the *string the code sees*.
 * `readJit`: the JITDUMP branch of `read_bytes_at_relative_address` (binary_image.rs:225-241 with
   `JitDumpIndex::lookup_relative_address`, jitdump.rs:121-134).
-* `memberRange`: a member of a fat Mach-O archive is the sub-range `start .. start+size` of the file
-  (macho.rs:495-498); offsets inside the member are offsets from `start`.
+* `memberData`: a member of a fat Mach-O archive is the sub-range `start .. start+size` of the file
+  (`MachOFatArchiveMemberData::data()`, macho.rs:495-498); offsets inside the member are offsets from `start`.
 
 Core Lean only (linked into the driver executable).
 -/
@@ -154,5 +154,21 @@ def queryJit (arch : Arch) (entries : List JitEntry) (fileLen : Nat) (sym : Opti
       | .done items f => some (.resp rel fileOff n items f)
       | .panic => some .panic
       | .nofuel => some .nofuel
+
+/-- `queryJit` with a byte-level decoder and the dump's bytes -/
+def queryJitB (arch : Arch) (entries : List JitEntry) (sym : Option Sym) (req : Req) (D : ByteDec)
+    (file : List UInt8) : Option Outcome :=
+  queryJit arch entries file.length sym req (fun p =>
+    match readJit entries file.length (alignStart arch req.start)
+        (readSize (disasmLen req.start req.size req.cont (fnEnd sym))) with
+    | .ok fo n => decAt D (fileBytes file fo n) p
+    | _ => .exhausted)
+
+/-! ### Members of a fat Mach-O archive (macho.rs:473-503)
+
+`MachOFatArchiveMemberData::data()` is `file_data.range(start_offset, range_size)`; the object is parsed from, and
+every read goes through, that range. The request on a member is therefore `queryB` on `memberData file start size`. -/
+
+def memberData (file : List UInt8) (start size : Nat) : List UInt8 := fileBytes file start size
 
 end Asm
